@@ -79,7 +79,23 @@ def build_and_run_replay(run, q, case, rdir):
     io = os.path.join(rdir, 'inputs.o')
     cc(['clang', '-c', src, '-o', io])
     exe = os.path.join(rdir, 'replay')
-    cc(['clang++' if cxx else 'clang', '-fsanitize=address,undefined', '-Wl,--gc-sections', '-Wl,--unresolved-symbols=ignore-all'] + objs + [ho, rt, io, '-o', exe, '-lm', '-ldl'])
+    link = ['clang++' if cxx else 'clang', '-fsanitize=address,undefined', '-Wl,--gc-sections'] + objs + [ho, rt, io]
+    r = subprocess.run(link + ['-o', exe, '-lm', '-ldl'], capture_output=True, text=True)
+    log.append(' '.join(link))
+    if r.returncode != 0:
+        # functions of units that are not part of this harness (unreachable under CBMC: assert-false bodies there):
+        # give them aborting stubs so that the native link succeeds
+        und = sorted(set(re.findall(r"undefined reference to `([A-Za-z_][A-Za-z_0-9]*)'", r.stderr)))
+        if not und:
+            raise RuntimeError('native link failed:\n' + r.stderr[-2500:])
+        stubs = os.path.join(rdir, 'stubs.c')
+        with open(stubs, 'w') as f:
+            f.write('#include <stdio.h>\n#include <stdlib.h>\n')
+            for u in und:
+                f.write('void %s(void) { fprintf(stderr, "REPLAY: reached function %s which is not linked into this harness\\n"); abort(); }\n' % (u, u))
+        so = os.path.join(rdir, 'stubs.o')
+        cc(['clang', '-w', '-c', stubs, '-o', so])
+        cc(link + [so, '-o', exe, '-lm', '-ldl'])
     with open(os.path.join(rdir, 'build.log'), 'w') as f:
         f.write('\n'.join(log) + '\n')
     env = dict(os.environ, ASAN_OPTIONS='exitcode=99:detect_leaks=0:abort_on_error=0', UBSAN_OPTIONS='print_stacktrace=0')
